@@ -186,7 +186,8 @@ def _digit_strings(max_len):
 word_chars = st.characters(min_codepoint=33, max_codepoint=0x24F,
                            blacklist_characters=G.LINE_BREAKS + " \t\xa0\x1f",
                            blacklist_categories=("Cc", "Cs", "Zs", "Zl", "Zp"))
-_words = st.one_of(st.sampled_from(["solo", "soloend", "a=b", '"q"', '"solo"', '"phrase_start"', '"lyric"', "N", "S",
+_words = st.one_of(st.sampled_from([w for w in G.WRAPPED if " " not in w and "\t" not in w]),
+                   st.sampled_from(["solo", "soloend", "a=b", '"q"', '"solo"', '"phrase_start"', '"lyric"', "N", "S",
                                     "2", "0=N", "[x]", "{", "}"]),
                    st.text(alphabet=word_chars, min_size=1, max_size=20),
                    st.lists(st.sampled_from(G.UNICODE_ODDITIES + ["a", "Q", '"']), min_size=1, max_size=3).map("".join),
